@@ -149,7 +149,14 @@ def run(ctx):
     js = ctx.fn('bin', 'json::from_state', rule)
     if js is not None:
         r = strip_refs(q.ret_expr(js))
-        good = r[0] == 'agg' and r[1] == 'tuple' and is_const(r[2][1], 0)
+        good = r[0] == 'agg' and r[1] == 'tuple' and len(r[2]) == 2 and is_const(r[2][1], 0)
+        if not good:
+            # the pair wrapped in Ok(..) of a fallible conversion: every (game, offset) pair built here has offset 0.0
+            pairs = [strip_refs(e_[2][0]) for _, _, e_ in q.agg_sites(js, 'result::Result', 'Ok') if e_[2]]
+            pairs = [t_ for t_ in pairs if t_[0] == 'agg' and t_[1] == 'tuple' and len(t_[2]) == 2]
+            if pairs:
+                good = all(is_const(t_[2][1], 0) for t_ in pairs)
+                r = pairs[0]
         ctx.verdict(good, rule, rule + ':json-offset-zero', 'the JSON reader returns the offset 0.0 (zero-sum by construction)', js.where(0), 'returned: %s' % facts.show(r)[-30:])
 
     # ---------------- (2) interior payoffs
